@@ -17,7 +17,8 @@
 #include "parse_ghost.h"
 #include "grammar_spec.h"
 
-enum { M_STEP, M_BASE };
+enum { M_STEP, M_BASE, M_SCRIPT };
+static const int *g_script_tok; static const char *const *g_script_txt; static int g_script_len, g_script_pos;
 static int g_mode;
 
 /* ---- harness inputs (appear in counterexamples) */
@@ -149,6 +150,11 @@ static void check_continue(void)
 int cfg_yylex(cfg_t *cfg)
 {
 	g_lex_calls++;
+	if (g_mode == M_SCRIPT) {
+		if (g_script_pos >= g_script_len) return EOF;
+		cfg_yylval = (char *)g_script_txt[g_script_pos];
+		return g_script_tok[g_script_pos++];
+	}
 	__CPROVER_assert(cfg == &h_cfg, "C01: tokens are read for the context being parsed");
 	if (g_lex_calls == 1) {
 		if (g_mode == M_BASE) {
@@ -173,10 +179,12 @@ void cfg_scan_fp_end(void) {}
 int cfgv_pi_entry(cfg_t *cfg, int level, int force_state, cfg_opt_t *force_opt, int *state, char **comment, char **opttitle,
 		  cfg_opt_t **opt, cfg_value_t **val, cfg_opt_t *funcopt, int *ignore, int *num_values, int *result)
 {
+	if (g_mode == M_SCRIPT) { g_depth++; return 0; }      /* scripted runs execute the nested activations for real */
 	if (g_depth > 0) {
 		/* contract::cfg_parse_internal for the nested activations */
 		cfgv_log(EV_RECURSE, cfg, NULL, force_state);
 		CHECK("C01,C12", force_opt == NULL && level == g_outer_level + 1 && (force_state == -1 || force_state == 10), "nested parse: one level deeper, section body (-1) or discard mode (10), no forced option");
+		KFCHECK("C02-recursion-depth-unbounded", "C02,C12", level <= 10000, "nesting deeper than a fixed limit is refused instead of recursing further (stack bound)");
 		if (force_state == -1) {
 			CHECK("C06", cfg == &h_sec && h_sec.errfunc == h_cfg.errfunc && h_sec.line == h_cfg.line, "a section body is parsed with the section's position and error function set from the enclosing context");
 			CHECK("C13,C17", h_sec.path == h_cfg.path, "a section shares the search path of the enclosing context");
@@ -234,7 +242,7 @@ void h_parse_step(void)
 	g_mode = M_STEP;
 	setup();
 	in_state = nondet_int(); in_tok = nondet_int(); in_level = nondet_int(); in_force = nondet_bool() ? 10 : -1;
-	__CPROVER_assume(in_level >= 0 && in_level < 1000);
+	__CPROVER_assume(in_level >= 0 && in_level < 1000000);
 	__CPROVER_assume(in_tok == 0 || in_tok == EOF || in_tok == '{' || in_tok == '}' || in_tok == '(' || in_tok == ')' || in_tok == '=' || in_tok == '+' || in_tok == ',' || in_tok == CFGT_STR || in_tok == CFGT_COMMENT);
 	in_cur_null = nondet_bool(); in_pending = nondet_bool(); in_title_pending = nondet_bool();
 	in_num_values = nondet_int(); in_ignore = nondet_int(); in_tokens = nondet_int();
@@ -319,3 +327,55 @@ void h_parse_base(void)
 	(void)cfg_parse_internal(&h_cfg, in_level, in_force, fo);
 	CHECK("C02", 0, "base case: the first loop head is reached (unreachable here)");
 }
+
+
+/* ------------------------------------------------------------------------------------------------ scripted runs (C12)
+ * The step unit pins the skipper's transition table; whether a whole undeclared item is skipped as the LANGUAGE defines
+ * it is decided here on concrete token scripts run through the real function (nested activations included):
+ * with ignore-unknown, "<item> i = 5" must be accepted, store exactly "5" into i, and deliver no diagnostic;
+ * without the flag the same text is rejected with a diagnostic. */
+#define T_S CFGT_STR
+static int run_script(const int *tok, const char *const *txt, int len, int ctxflags)
+{
+	g_mode = M_SCRIPT;
+	setup();
+	h_cfg.flags = ctxflags; h_cfg.line = 1;
+	h_found.type = CFGT_INT; h_found.flags = 0; h_found.validcb = NULL;
+	g_lookup_by_name = 1; g_lookup_result = &h_found; g_setopt_ok = 1; g_setopt_val = &h_val;
+	g_script_tok = tok; g_script_txt = txt; g_script_len = len; g_script_pos = 0; g_fn_n = 0; g_tokens = 0;
+	return cfg_parse_internal(&h_cfg, 0, -1, NULL);
+}
+static _Bool stored_once_5(void)
+{
+	int n = 0; _Bool ok = 1;
+	for (int k = 0; k < CFGV_MAXEV; k++)
+		if (k < g_nev && g_ev[k].kind == EV_SETOPT) { n++; if (g_ev[k].a != &h_found || ((const char *)g_ev[k].b)[0] != '5') ok = 0; }
+	return n == 1 && ok;
+}
+#define SCRIPT(name, kfid, ...) \
+void h_script_##name(void) { \
+	static const int tok[] = { __VA_ARGS__ }; static const char *const txt[] = { SCRIPT_TXT_##name }; int rc; \
+	rc = run_script(tok, txt, (int)(sizeof tok / sizeof tok[0]), CFGF_IGNORE_UNKNOWN); \
+	if (kfid[0]) KFCHECK(kfid, "C12", rc == STATE_EOF && g_diag == 0 && stored_once_5(), "with ignore-unknown an undeclared item is skipped: the text is accepted, the following assignment is applied once, no diagnostic"); \
+	else CHECK("C12", rc == STATE_EOF && g_diag == 0 && stored_once_5(), "with ignore-unknown an undeclared item is skipped: the text is accepted, the following assignment is applied once, no diagnostic"); \
+	rc = run_script(tok, txt, (int)(sizeof tok / sizeof tok[0]), 0); \
+	CHECK("C12,C06", rc == STATE_ERROR && g_diag >= 1, "without ignore-unknown the same text is rejected with a diagnostic"); \
+	CANARY("script_" #name); }
+#define SCRIPT_TXT_assign "u", "=", "1", "i", "=", "5"
+SCRIPT(assign, "", T_S, '=', T_S, T_S, '=', T_S)
+#define SCRIPT_TXT_list "u", "=", "{", "1", ",", "2", "}", "i", "=", "5"
+SCRIPT(list, "", T_S, '=', '{', T_S, ',', T_S, '}', T_S, '=', T_S)
+#define SCRIPT_TXT_append "u", "+=", "{", "1", "}", "i", "=", "5"
+SCRIPT(append, "C12-skipper-append", T_S, '+', '{', T_S, '}', T_S, '=', T_S)
+#define SCRIPT_TXT_call "u", "(", "1", ",", "2", ")", "i", "=", "5"
+SCRIPT(call, "", T_S, '(', T_S, ',', T_S, ')', T_S, '=', T_S)
+#define SCRIPT_TXT_emptysec "u", "{", "}", "i", "=", "5"
+SCRIPT(emptysec, "C12-skipper-empty-section", T_S, '{', '}', T_S, '=', T_S)
+#define SCRIPT_TXT_sec "u", "{", "a", "=", "1", "}", "i", "=", "5"
+SCRIPT(sec, "C12-skipper-section-with-assignment", T_S, '{', T_S, '=', T_S, '}', T_S, '=', T_S)
+#define SCRIPT_TXT_titled "u", "t", "{", "x", "=", "1", "y", "=", "2", "}", "i", "=", "5"
+SCRIPT(titled, "C12-skipper-titled-section", T_S, T_S, '{', T_S, '=', T_S, T_S, '=', T_S, '}', T_S, '=', T_S)
+#define SCRIPT_TXT_nested "u", "{", "v", "{", "}", "}", "i", "=", "5"
+SCRIPT(nested, "C12-skipper-nested-section", T_S, '{', T_S, '{', '}', '}', T_S, '=', T_S)
+#define SCRIPT_TXT_twoassign "u", "{", "a", "=", "1", "b", "=", "2", "}", "i", "=", "5"
+SCRIPT(twoassign, "C12-skipper-section-two-assignments", T_S, '{', T_S, '=', T_S, T_S, '=', T_S, '}', T_S, '=', T_S)
